@@ -3,7 +3,7 @@ import vf, gen
 from vf import Case
 from checklib import PropCheck
 from props.common import dump_of
-from props.c01 import NAME_POOL, COMMENTS, canon, root_of
+from props.c01 import NAME_POOL, QUOTED, COMMENTS, canon, root_of
 
 # format -> (names: all/leaf/none, lengths: all/leaf/internal/none, comments)
 TABLE = {0: ('all', 'all', True), 1: ('none', 'none', False), 2: ('all', 'all', False), 3: ('all', 'none', False),
@@ -52,6 +52,8 @@ class Check(PropCheck):
             for i, nd in enumerate(t.nodes()):
                 if rng.random() < 0.6:
                     nd.name = rng.choice(NAME_POOL[:9]) + str(i)
+                    if rng.random() < 0.08:
+                        nd.name = rng.choice(QUOTED)       # verbatim double-quoted labels (also the empty one and doubled quotes)
                 if rng.random() < 0.35:
                     nd.comment = rng.choice(COMMENTS[:5])
                 if rng.random() < 0.6:
@@ -68,6 +70,8 @@ class Check(PropCheck):
             ops += ['dump']
             for k in range(9):
                 ops += ['to_fmt %d' % k, 'rt_fmt %d' % k]
+            if rng.random() < 0.4:
+                ops += ['partitions']        # a read-only query in between must not change the export
             ops += ['to_nexus', 'n_leaves', 'to_newick']
             cases.append(Case('c%d' % j, ops))
         return cases
